@@ -107,12 +107,17 @@ namespace sqf::parser::sqf
         {
             auto it = start;
             auto len = ::sqf::runtime::util::strlen(against);
-            for (size_t i = 0; i < len && it < m_end; i++, ++it)
+            size_t i = 0;
+            for (; i < len && it < m_end; i++, ++it)
             {
                 if ((char)std::tolower(*it) != against[i]) { return 0; }
             }
-            if (it < m_end && ((char)std::tolower(*it) >= 'a' && (char)std::tolower(*it) <= 'z'))
-            {
+            if (i < len)
+            { // input ended inside the keyword: `f`, `tru`, `priv` are identifiers, not keywords
+                return 0;
+            }
+            if (it < m_end && (((char)std::tolower(*it) >= 'a' && (char)std::tolower(*it) <= 'z') || (*it >= '0' && *it <= '9') || *it == '_'))
+            { // keyword is only the start of a longer identifier (`true1`, `private_x`)
                 return 0;
             }
             return it - start;
